@@ -229,6 +229,19 @@ impl RecvEngine {
         RecvEngine { rx: None, rx0: None, cfg: Cfg::default(), dead: false, hist: HashMap::new(), sh: Shadow::default(), max_xml: 0, heap_reported: Default::default(), heap17_reported: false, rx_bytes: HashMap::new(), cfg_line: String::new(), iso_n: 0, cur_encoded: false, ann: HashMap::new(), grown_toi0: 0, cur_key: 0, cur_is_toi0: false }
     }
 
+    /// bytes that an announcement (EXT_FTI, or a File entry of an FDT) explains for `key`
+    fn announce(&mut self, key: u128, e: u64, b: u64, l: u64) {
+        let (e, b, l) = (e.max(1) as i128, b.max(1) as i128, l as i128);
+        let t = (l + e - 1) / e;
+        let n = (t + b - 1) / b;
+        let blk = l.min(b * e);
+        let blocks = (2 * (2 * blk + 48 * t.min(b))).min(i64::MAX as i128 / 8) as i64;
+        let table = (200 * n.min(4097)) as i64;
+        let ent = self.ann.entry(key).or_insert((0, 0));
+        ent.0 = ent.0.max(blocks);
+        ent.1 = ent.1.max(table);
+    }
+
     fn drop_rx(&mut self) {
         let a = self.rx.take();
         let b = self.rx0.take();
@@ -393,15 +406,7 @@ impl RecvEngine {
                 self.cur_key = if i.toi == 0 { u128::MAX - i.fdt_id.unwrap_or(0) as u128 } else { i.toi };
                 *self.rx_bytes.entry(self.cur_key).or_insert(0) += i.payload.len() as i64;
                 if let Some((_, e, b, l)) = i.fti {
-                    let (e, b, l) = (e.max(1) as i128, b.max(1) as i128, l as i128);
-                    let t = (l + e - 1) / e;
-                    let n = (t + b - 1) / b;
-                    let blk = l.min(b * e);
-                    let blocks = (2 * (2 * blk + 48 * t.min(b))).min(i64::MAX as i128 / 8) as i64;
-                    let table = (200 * n.min(4097)) as i64;
-                    let ent = self.ann.entry(self.cur_key).or_insert((0, 0));
-                    ent.0 = ent.0.max(blocks);
-                    ent.1 = ent.1.max(table);
+                    self.announce(self.cur_key, e as u64, b as u64, l);
                 }
             }
         }
@@ -411,6 +416,25 @@ impl RecvEngine {
                     fdt_id = id;
                     if self.sh.feed(i, now as i128) {
                         done = Some(id);
+                        // what the File entries of the completed instance announce (OTI through the FDT)
+                        let files: Vec<(u128, u64, u64, u64)> = self
+                            .sh
+                            .inst
+                            .get(&id)
+                            .and_then(|x| x.answer.as_ref())
+                            .and_then(|a| a.files.as_ref())
+                            .map(|fs| {
+                                fs.iter()
+                                    .filter_map(|f| match (f.toi.trim().parse::<u128>(), f.oti) {
+                                        (Ok(toi), Some((_, esl, msbl))) => Some((toi, esl as u64, msbl as u64, f.transfer_length as u64)),
+                                        _ => None,
+                                    })
+                                    .collect()
+                            })
+                            .unwrap_or_default();
+                        for (toi, e, b, l) in files {
+                            self.announce(toi, e, b, l);
+                        }
                     }
                     self.max_xml = self.max_xml.max(self.sh.max_len());
                 }
@@ -628,6 +652,18 @@ impl Engine for RecvEngine {
                 }
                 "ok".into()
             }
+            "mr2" if t.len() >= 3 => {
+                // C17 at the MultiReceiver: FDT-ONLY traffic (no object in flight): unfinished FDT instances are
+                // released by cleanup once the object time-out has elapsed.  Oracle only.
+                let n: u32 = t[2].parse().unwrap_or(1);
+                let r = guarded(move || fdt_only_session(n));
+                match r {
+                    Ok(Ok(())) => {}
+                    Ok(Err(why)) => o.fail("C17:multireceiver-fdt-not-released", &why),
+                    Err(loc) => o.fail(&panic_class(&loc), &format!("MultiReceiver panics at {}", loc)),
+                }
+                "ok".into()
+            }
             "sleep" if t.len() >= 3 => {
                 std::thread::sleep(Duration::from_millis(t[2].parse().unwrap_or(0)));
                 "ok".into()
@@ -682,6 +718,13 @@ impl Engine for RecvEngine {
                 }
                 if stale && !self.dead && self.cfg.obj_to {
                     let rx = self.rx.as_ref().unwrap();
+                    // ---- C17: ... no FDT instance is still under reception (every one of them is older than
+                    //      the object time-out; complete ones have left `fdt_receivers` when they completed)
+                    let pr = probe::probe(&format!("{:?}", rx.r));
+                    let fr: usize = pr.split(' ').find_map(|x| x.strip_prefix("fr=")).and_then(|x| x.parse().ok()).unwrap_or(0);
+                    if fr != 0 {
+                        o.fail("C17:fdt-instance-kept-after-timeout", &format!("{} FDT instances still registered in fdt_receivers after a cleanup with the object time-out elapsed", fr));
+                    }
                     // ---- C17: after the object time-out a cleanup releases everything of stalled objects ...
                     if rx.r.nb_objects() != 0 {
                         o.fail("C17:cleanup-keeps-objects", &format!("{} objects left after the object time-out elapsed", rx.r.nb_objects()));
@@ -736,6 +779,14 @@ impl Engine for RecvEngine {
                             o.fail(&full("wrong-length"), &format!("TOI {} delivered {} bytes, expected {}", toi, h.bytes, len));
                         }
                     }
+                    "n" => {
+                        // the receiver holds exactly this many objects now (which time-out applies to what)
+                        let want: usize = t.get(4).and_then(|x| x.parse().ok()).unwrap_or(0);
+                        let have = self.rx.as_ref().map(|r| r.r.nb_objects()).unwrap_or(0);
+                        if have != want {
+                            o.fail(&full("object-count"), &format!("nb_objects() = {}, expected {}", have, want));
+                        }
+                    }
                     "s" => {
                         if h.new + h.complete + h.error + h.interrupted != 0 {
                             o.fail(&full("expired-not-silent"), &format!("TOI {} announced only by expired FDT instances: new={} complete={} error={} interrupted={}", toi, h.new, h.complete, h.error, h.interrupted));
@@ -760,6 +811,43 @@ impl flute::receiver::MultiReceiverListener for Closed {
     fn on_session_closed(&self, _e: &flute::receiver::ReceiverEndpoint) {
         self.0.set(self.0.get() + 1);
     }
+}
+
+fn fdt_only_session(n: u32) -> Result<(), String> {
+    let log: Log = Rc::new(RefCell::new(Vec::new()));
+    let builder = Rc::new(RecBuilder { log, cur_fdt: Rc::new(Cell::new(0)) });
+    let config = RxConfig { session_timeout: None, object_timeout: Some(Duration::from_millis(1)), ..Default::default() };
+    let ep = UDPEndpoint::new(None, "224.0.0.1".to_string(), 5000);
+    let now = st(gen::T0);
+    let pkts: Vec<Vec<u8>> = (0..n).map(|id| gen::mk_pkt(0, Some(id), 64, 64, true, 128, 0, 0, vec![2; 64], false, None)).collect();
+    let was = alloc::resume(false);
+    let base = alloc::live();
+    alloc::resume(true);
+    let mut mr = flute::receiver::MultiReceiver::new(builder, Some(config), false);
+    let mut res = Ok(());
+    for p in &pkts {
+        if let Err(e) = mr.push(&ep, p, now) {
+            res = Err(format!("push: {:?}", e));
+            break;
+        }
+    }
+    let held = alloc::live() - base;
+    alloc::resume(false);
+    std::thread::sleep(Duration::from_millis(5));
+    alloc::resume(true);
+    mr.cleanup(now);
+    let after = alloc::live() - base;
+    drop(mr);
+    alloc::resume(was);
+    res?;
+    // each unfinished instance holds its FdtReceiver + ObjectReceiver + one 64-byte symbol (> 1 kB)
+    if held > 256 * 1024 && after > held / 4 {
+        return Err(format!(
+            "{} FDT instance ids, each missing its last packet, no object in flight: {} B held; after the 1 ms object time-out elapsed and cleanup(): still {} B",
+            n, held, after
+        ));
+    }
+    Ok(())
 }
 
 fn idle_sessions(n: u64) -> Result<(), String> {
